@@ -1,11 +1,964 @@
-//! C09 — not implemented yet (stub).
-use crate::engine::Ctx;
-use serde_json::Value;
+//! C09 — results are invariant under relabelling, padding and splitting of components; sub-models
+//! behave like directly built models with the same options.
+//!
+//! Five sampled parts, one per clause of the property. Every comparison goes through the public
+//! `State` getters (beta A_res/N, p_res, S_res, mu_res_i, dp/dV, dp/dT, dp/dN_i, dmu_i/dN_j) with
+//! the cancellation-safe scales of C08 (`super::c08::{props, compare}`).
+use super::c08::{
+    assoc_stiffness, compare, density_class, dft_signatures, feature_classes, mr_f64, props, site_moles_fraction,
+    split_spec, strip_polar, with_stiffness, with_typed, Inputs, Props, Tol, Visitor, ATOL_A, FLOOR_ASSOC, TOL_ASSOC,
+};
+use crate::engine::{Ctx, Gen, Obs, PanicPolicy, PartCfg};
+use crate::model::*;
+use feos::core::{
+    Components, Contributions, DensityInitialization, PhaseEquilibrium, ReferenceSystem, Residual, SolverOptions, State,
+};
+use ndarray::Array1;
+use quantity::*;
+use serde::{Deserialize, Serialize};
+use serde_json::{json, Value};
+use std::collections::BTreeMap;
+use std::sync::Arc;
 
-pub fn run(_ctx: &Ctx) {
-    panic!("C09: check not implemented yet");
+#[derive(Serialize, Deserialize, Clone, Copy, Debug, PartialEq, Eq)]
+pub enum Clause {
+    Permute,
+    Pad,
+    Split,
+    Subset,
+    PureQuantities,
 }
 
-pub fn replay(_ctx: &Ctx, _part: &str, _case: &Value) -> bool {
-    panic!("C09: check not implemented yet");
+#[derive(Serialize, Deserialize, Clone, Debug)]
+pub struct Case {
+    pub clause: Clause,
+    /// the full model
+    pub spec: ModelSpec,
+    /// state of the compared (smaller) system; compositions are expanded / permuted by the check
+    pub state: StateSpec,
+    /// Pad: components with zero moles. Subset: unused.
+    pub absent: Vec<usize>,
+    /// Split: component and fraction kept in the first copy
+    pub comp: usize,
+    pub split: f64,
+    /// Subset (n = 4 only): which ordered subsets are visited (indices into the enumeration)
+    pub picks: Vec<usize>,
+    /// PureQuantities: T / min_i T_c,i and pressure factor over the largest pure vapour pressure
+    pub tau_vle: f64,
+    pub p_factor: f64,
+}
+
+// same value through relabelled / padded / split / sub-model code: summation order only
+const TOL_RELABEL: Tol = Tol { rel: 2e-12, round: 2e-12 };
+// group-contribution models iterate HashMaps while building (per-process order)
+const TOL_RELABEL_GC: Tol = Tol { rel: 1e-11, round: 1e-11 };
+/// solver results (saturation pressure, densities, critical point, Henry constant): both sides run the
+/// same algorithm with the same tolerances on the same model; measured <= 1e-12, see calibration
+const RTOL_SOLVER: f64 = 1e-7;
+/// gc-PC-SAFT parameter sets differ at 1e-16 between two builds (HashMap order); saturation pressures
+/// of heavy components (p_sat ~ 1e-12 in reduced units) are converged to ~1e-5 relative only
+const RTOL_SOLVER_GC: f64 = 1e-3;
+
+/// relabelling tolerance per family
+fn base_tol(f: Family) -> Tol {
+    match f {
+        // a single contribution: repulsion and attraction cancel inside it, which the
+        // per-contribution scale cannot see (measured up to 4.5e-11 of |A| over 28 seeds)
+        Family::PengRobinson => Tol { rel: 3e-9, round: 1e-12 },
+        // HashMap build order (gc) / ionic, Born and permittivity terms / the combined
+        // "Dispersion + Chain" contribution of SAFT-VR Mie with internal cancellation (measured 4e-13)
+        Family::GcPcSaft | Family::GcPcSaftFunctional | Family::EPcSaft | Family::SaftVRMie => TOL_RELABEL_GC,
+        _ => TOL_RELABEL,
+    }
+}
+fn is_gc(f: Family) -> bool {
+    matches!(f, Family::GcPcSaft | Family::GcPcSaftFunctional)
+}
+fn is_functional(f: Family) -> bool {
+    matches!(
+        f,
+        Family::PcSaftFunctional
+            | Family::GcPcSaftFunctional
+            | Family::PetsFunctional
+            | Family::FmtFunctional
+            | Family::SaftVRQMieFunctional
+    )
+}
+
+// ---------------------------------------------------------------------------------------
+// Generators
+// ---------------------------------------------------------------------------------------
+/// Non-default options for every family (the property quantifies over all option structs).
+fn force_opts(g: &mut Gen, spec: &mut ModelSpec) {
+    let o = &mut spec.opts;
+    if g.bool(0.75) {
+        o.max_eta = g.range(0.35, 0.65);
+    }
+    if g.bool(0.5) {
+        o.max_iter_cross_assoc = g.int(40, 300) as usize;
+        o.tol_cross_assoc = g.log_range(1e-12, 1e-9);
+    }
+    match spec.family {
+        Family::PcSaft | Family::PcSaftFunctional => o.dq44 = g.bool(0.5),
+        _ => {}
+    }
+    if is_functional(spec.family) {
+        o.fmt = g.index(3) as u8;
+    }
+    if matches!(spec.family, Family::SaftVRQMie | Family::SaftVRQMieFunctional) {
+        o.inc_nonadd = g.bool(0.5);
+    }
+    // the revised ePC-SAFT variant has no ionic term by documented design: only without ions
+    if spec.family == Family::EPcSaft && !spec.source.starts_with("shipped") {
+        o.epc_revised = g.bool(0.5);
+    }
+}
+
+/// families weighted by cost: functionals of SAFT-VRQ Mie / gc-PC-SAFT are 50-250 ms per state
+fn families_weighted() -> Vec<Family> {
+    let mut f = vec![];
+    for fam in [
+        Family::PcSaft,
+        Family::PengRobinson,
+        Family::SaftVRMie,
+        Family::Pets,
+        Family::UVTheory,
+        Family::EPcSaft,
+        Family::GcPcSaft,
+        Family::SaftVRQMie,
+    ] {
+        f.extend([fam; 3]);
+    }
+    f.extend([Family::PcSaft; 4]);
+    f.extend([Family::PcSaftFunctional; 4]);
+    f.extend([Family::PetsFunctional, Family::FmtFunctional, Family::FmtFunctional]);
+    f.extend([Family::GcPcSaftFunctional, Family::SaftVRQMieFunctional]);
+    f
+}
+
+fn decode_clause(clause: Clause) -> impl Fn(&mut Gen) -> Case + Sync {
+    move |g: &mut Gen| {
+        let (min_comp, max_comp) = match clause {
+            Clause::Permute | Clause::Pad | Clause::Subset => (2, 4),
+            Clause::Split => (1, 3),
+            Clause::PureQuantities => (2, 3),
+        };
+        let families = match clause {
+            // phase equilibria of the pure components must exist; equations of state only (the pure
+            // vs mixture code paths of the functionals are the subject of the pad clause)
+            Clause::PureQuantities => {
+                let mut f = vec![Family::PcSaft; 4];
+                f.extend([Family::PengRobinson; 3]);
+                f.extend([Family::SaftVRMie; 3]);
+                f.extend([Family::Pets; 2]);
+                f.extend([Family::UVTheory, Family::GcPcSaft, Family::SaftVRQMie]);
+                f
+            }
+            _ => families_weighted(),
+        };
+        let mut spec = gen_model(g, &GenCfg { families, min_comp, max_comp });
+        if clause == Clause::PureQuantities && spec.n() == 3 && g.bool(0.85) {
+            // ternaries cost 0.3-3 s each (bubble points, three critical points): one in seven
+            spec = spec.subset(&[0, 1]);
+        }
+        force_opts(g, &mut spec);
+        if clause == Clause::Split && spec.family == Family::EPcSaft && spec.source.starts_with("shipped") {
+            // `water_sigma_t_comp: Option<usize>`: only ONE component can carry the temperature
+            // dependent water diameter, so two copies of that record are not two identical components
+            // by construction of the model; use a solvent that is not recognised as "the" water
+            spec.pure[0]["model_record"]["m"] = json!(1.21);
+            spec.source = format!("{}+solvent with constant sigma", spec.source);
+        }
+        if clause == Clause::Split && is_gc(spec.family) {
+            // group-group k_ij of the binary table act between groups of *different* components only
+            // (model definition): (A, A) is not the same fluid as A there
+            if let Some((sf, _)) = spec.seg.clone() {
+                spec.seg = Some((sf, None));
+            }
+        }
+        let n = spec.n();
+        let ions = spec.family == Family::EPcSaft && spec.source.starts_with("shipped");
+        let mut absent = vec![];
+        let mut comp = 0;
+        let mut split = 0.5;
+        let mut picks = vec![];
+        let n_state = match clause {
+            Clause::Pad => {
+                if ions {
+                    absent = vec![1, 2];
+                } else {
+                    let k = if n > 2 && g.bool(0.4) { 2 } else { 1 };
+                    let perm = g.permutation(n);
+                    absent = perm[..k.min(n - 1)].to_vec();
+                    absent.sort();
+                }
+                n - absent.len()
+            }
+            Clause::Split => {
+                comp = if ions { 0 } else { g.index(n) };
+                split = g.range(0.02, 0.98);
+                n
+            }
+            Clause::Subset => {
+                picks = (0..10).map(|_| g.index(64)).collect();
+                n
+            }
+            _ => n,
+        };
+        let state = gen_state(g, n_state);
+        let tau_vle = g.range(0.55, 0.92);
+        let p_factor = g.log_range(1.05, 30.0);
+        Case { clause, spec, state, absent, comp, split, picks, tau_vle, p_factor }
+    }
+}
+
+// ---------------------------------------------------------------------------------------
+// Known-finding signatures
+// ---------------------------------------------------------------------------------------
+/// contributions that contain the association term (the pure-component PC-SAFT functional evaluates
+/// it together with FMT) / the dispersion + polar terms, in any family
+const ASSOC_NAMES: [&str; 5] =
+    ["Association", "Pure FMT+association", "FMT functional (WB)", "FMT functional (KR)", "FMT functional (AntiSymWB)"];
+const CHAIN_NAMES: [&str; 4] = ["Ideal chain", "Pure chain", "Hard chain functional", "Hard Chain"];
+const POLAR_NAMES: [&str; 6] =
+    ["Attractive functional", "Pure attractive", "Dispersion", "Dipole", "Quadrupole", "DipoleQuadrupole"];
+
+/// (finding id, names of the contributions that are left out when the rest is asserted)
+fn signatures(l: &ModelSpec, r: &ModelSpec) -> Vec<(String, Vec<&'static str>)> {
+    let mut out: Vec<(String, Vec<&'static str>)> = vec![];
+    // root causes recorded under C08 (defects of the Helmholtz energy functionals) break the
+    // invariances whenever the two sides take different code paths or component indices
+    for s in [l, r] {
+        for k in dft_signatures(s) {
+            let (id, names): (&str, Vec<&'static str>) = match k.id {
+                "C08/pcsaft-functional-pure-dipole-quadrupole" => ("C09/pcsaft-functional-pure-dipole-quadrupole", POLAR_NAMES.to_vec()),
+                "C08/pcsaft-functional-quadrupole-cross-term" => ("C09/pcsaft-functional-quadrupole-cross-term", POLAR_NAMES.to_vec()),
+                "C08/association-functional-strength-of-component-0" => {
+                    ("C09/association-functional-strength-of-component-0", ASSOC_NAMES.to_vec())
+                }
+                "C08/association-functional-drops-c-sites" => ("C09/association-functional-drops-c-sites", ASSOC_NAMES.to_vec()),
+                "C08/pcsaft-functional-pure-chain-m-below-1" => ("C09/pcsaft-functional-pure-chain-m-below-1", CHAIN_NAMES.to_vec()),
+                _ => continue,
+            };
+            if !out.iter().any(|(i, _)| i == id) {
+                out.push((id.to_string(), names));
+            }
+        }
+    }
+    // PC-SAFT equation of state: quadrupole pair term between different components divides by
+    // sigma_ii^7 of the lower-index component instead of sigma_ij^7
+    for s in [l, r] {
+        if s.family == Family::PcSaft {
+            let quad: Vec<f64> = s.pure.iter().filter(|p| mr_f64(p, "q") != 0.0).map(|p| mr_f64(p, "sigma")).collect();
+            if quad.iter().any(|a| quad.iter().any(|b| a != b)) && !out.iter().any(|(i, _)| i.ends_with("quadrupole-pair-sigma")) {
+                out.push(("C09/pcsaft-quadrupole-pair-sigma".to_string(), vec!["Quadrupole"]));
+            }
+        }
+    }
+    out
+}
+
+// ---------------------------------------------------------------------------------------
+// Pair comparison with known-finding handling
+// ---------------------------------------------------------------------------------------
+struct Side<'a> {
+    spec: &'a ModelSpec,
+    model: &'a Arc<Model>,
+    inp: &'a Inputs,
+}
+
+/// tolerance of one pair: relabelling tolerance, widened where an association term is present
+/// (iterative solver: converged to tol_cross_assoc from a different start / site order)
+fn pair_tol(spec: &ModelSpec, l: &Props, f_eta: f64) -> (Tol, f64, f64) {
+    let base = base_tol(spec.family);
+    let assoc = l.contributions.iter().any(|(n, v)| (n.contains("ssociation")) && *v > 0.0) || spec.has_association();
+    if !assoc {
+        return (base, 0.0, 0.0);
+    }
+    let x = vec![1.0; spec.n()];
+    let stiff = assoc_stiffness(spec, l.t, l.ntot / l.vol, &x, f_eta * spec.opts.max_eta);
+    let sites = site_moles_fraction(spec).max(4.0);
+    let extra = 100.0 * spec.opts.tol_cross_assoc.max(1e-10) * sites;
+    (with_stiffness(Tol { rel: 2.0 * TOL_ASSOC.rel, round: TOL_ASSOC.round }, stiff), extra, FLOOR_ASSOC * sites)
+}
+
+/// Returns the number of sharp comparisons (see c08::compare), or None when a side failed.
+fn pair_compare(obs: &mut Obs, key: &str, l: Side, r: Side, map: &[usize], f_eta: f64) -> Option<u32> {
+    let lp = match props(l.model, l.inp, &[]) {
+        Ok(p) => p,
+        Err(e) => {
+            obs.discard(format!("left state:{}", e.chars().take(40).collect::<String>()));
+            return None;
+        }
+    };
+    let rp = match props(r.model, r.inp, &[]) {
+        Ok(p) => p,
+        Err(e) => {
+            obs.discard(format!("right state:{}", e.chars().take(40).collect::<String>()));
+            return None;
+        }
+    };
+    if !lp.a.0.is_finite() && !rp.a.0.is_finite() {
+        obs.discard(format!("non-finite A_res on both sides:{:?}", l.spec.family));
+        return None;
+    }
+    if (!lp.a.0.is_finite() || !rp.a.0.is_finite()) && (l.spec.has_association() || r.spec.has_association()) {
+        // NotConverged of the iterative solver is reported as NaN: a failure to return a value (the
+        // forced options go down to tol_cross_assoc = 1e-12), not an altered value
+        obs.discard(format!("non-finite A_res on one side (cross-association solver not converged):{:?}", l.spec.family));
+        return None;
+    }
+    let (tol, extra, floor) = pair_tol(l.spec, &lp, f_eta);
+    // only findings listed as open may mask: a fixed entry suppresses nothing
+    let mut sigs = signatures(l.spec, r.spec);
+    sigs.retain(|(id, _)| crate::engine::known_open(id));
+    let mut probe = Obs::default();
+    let key = &format!("{key}/{:?}", l.spec.family);
+    let pkey = if sigs.is_empty() { key.to_string() } else { format!("{key}(probe)") };
+    let sharp = compare(&mut probe, &pkey, &lp, &rp, map, tol, extra, floor);
+    if probe.fails.is_empty() || sigs.is_empty() {
+        obs.comparisons += probe.comparisons;
+        for f in probe.fails {
+            obs.fail(f);
+        }
+        return Some(sharp);
+    }
+    let mut names: Vec<&str> = vec![];
+    for (id, nm) in &sigs {
+        obs.class(format!("signature:{id}"));
+        obs.known_or_fail(id, probe.fails[0].clone());
+        names.extend(nm.iter().copied());
+    }
+    let (Ok(lx), Ok(rx)) = (props(l.model, l.inp, &names), props(r.model, r.inp, &names)) else {
+        obs.discard("masked state");
+        return None;
+    };
+    Some(compare(obs, &format!("{key}(masked)"), &lx, &rx, map, tol, extra, floor))
+}
+
+macro_rules! try_discard {
+    ($obs:expr, $what:expr, $e:expr) => {
+        match $e {
+            Ok(v) => v,
+            Err(e) => {
+                let e: String = e;
+                $obs.discard(format!("{}:{}", $what, e.chars().take(48).collect::<String>()));
+                return;
+            }
+        }
+    };
+}
+
+fn all_permutations(n: usize) -> Vec<Vec<usize>> {
+    fn rec(cur: &mut Vec<usize>, used: &mut Vec<bool>, n: usize, out: &mut Vec<Vec<usize>>) {
+        if cur.len() == n {
+            out.push(cur.clone());
+            return;
+        }
+        for i in 0..n {
+            if !used[i] {
+                used[i] = true;
+                cur.push(i);
+                rec(cur, used, n, out);
+                cur.pop();
+                used[i] = false;
+            }
+        }
+    }
+    let mut out = vec![];
+    rec(&mut vec![], &mut vec![false; n], n, &mut out);
+    out
+}
+
+/// every non-empty ordered subset of 0..n
+fn ordered_subsets(n: usize) -> Vec<Vec<usize>> {
+    let mut out = vec![];
+    for mask in 1u32..(1 << n) {
+        let idx: Vec<usize> = (0..n).filter(|i| mask & (1 << i) != 0).collect();
+        for p in all_permutations(idx.len()) {
+            out.push(p.iter().map(|&k| idx[k]).collect());
+        }
+    }
+    out
+}
+
+// ---------------------------------------------------------------------------------------
+// Check
+// ---------------------------------------------------------------------------------------
+pub fn check(case: &Case, obs: &mut Obs) {
+    let spec = &case.spec;
+    obs.class(format!("{:?}", spec.family));
+    obs.class(format!("n={}", spec.n()));
+    obs.class(density_class(case.state.f_eta).to_string());
+    let d = Opts::default();
+    let o = &spec.opts;
+    if o.max_eta != d.max_eta {
+        obs.class("option:max_eta");
+    }
+    if o.tol_cross_assoc != d.tol_cross_assoc || o.max_iter_cross_assoc != d.max_iter_cross_assoc {
+        obs.class("option:cross-association solver");
+    }
+    if o.dq44 && matches!(spec.family, Family::PcSaft | Family::PcSaftFunctional) {
+        obs.class("option:DQ44");
+    }
+    if o.fmt != 0 && is_functional(spec.family) {
+        obs.class(format!("option:fmt{}", o.fmt));
+    }
+    if o.perturbation != 0 && spec.family == Family::UVTheory {
+        obs.class(format!("option:perturbation{}", o.perturbation));
+    }
+    if !o.inc_nonadd && matches!(spec.family, Family::SaftVRQMie | Family::SaftVRQMieFunctional) {
+        obs.class("option:inc_nonadd_term=false");
+    }
+    if o.epc_revised && spec.family == Family::EPcSaft {
+        obs.class("option:ePC-SAFT revised");
+    }
+    if spec.binary.iter().any(|(_, _, b)| b.get("kappa_ab").is_some()) {
+        obs.class("binary association override");
+    }
+    if spec.binary.iter().any(|(_, _, b)| b.get("l_ij").is_some()) {
+        obs.class("binary l_ij");
+    }
+    if !spec.binary.is_empty() {
+        obs.class("binary records");
+    }
+    match case.clause {
+        Clause::Permute => check_permute(case, obs),
+        Clause::Pad => check_pad(case, obs),
+        Clause::Split => check_split(case, obs),
+        Clause::Subset => check_subset(case, obs),
+        Clause::PureQuantities => check_pure(case, obs),
+    }
+}
+
+fn check_permute(case: &Case, obs: &mut Obs) {
+    let spec = &case.spec;
+    let n = spec.n();
+    let left = try_discard!(obs, "build", spec.build());
+    let inp = try_discard!(obs, "inputs", state_inputs(spec, &left, &case.state));
+    let nl = inp.2.to_reduced();
+    if let Ok(p) = props(&left, &inp, &[]) {
+        feature_classes(obs, "permute", spec, &p);
+    }
+    let distinct = spec.pure.iter().any(|p| p != &spec.pure[0]);
+    let mut sharp_all = true;
+    let mut count = 0;
+    for perm in all_permutations(n) {
+        if perm.iter().enumerate().all(|(k, &p)| k == p) {
+            continue;
+        }
+        let rs = spec.permuted(&perm);
+        let right = try_discard!(obs, "build permuted", rs.build());
+        let nr: Vec<f64> = perm.iter().map(|&p| nl[p]).collect();
+        let inp_r: Inputs = (inp.0, inp.1, Moles::from_reduced(Array1::from_vec(nr)));
+        let Some(sharp) = pair_compare(
+            obs,
+            "permute",
+            Side { spec, model: &left, inp: &inp },
+            Side { spec: &rs, model: &right, inp: &inp_r },
+            &perm,
+            case.state.f_eta,
+        ) else {
+            return;
+        };
+        // max_density is a scalar result as well
+        let (ml, mr) = (left.max_density(Some(&inp.2)), right.max_density(Some(&inp_r.2)));
+        if let (Ok(ml), Ok(mr)) = (ml, mr) {
+            obs.close("max_density under permutation", ml.to_reduced(), mr.to_reduced(), 1e-12, 0.0);
+        }
+        sharp_all &= sharp >= 5;
+        count += 1;
+    }
+    obs.class(format!("permutations per case: {count}"));
+    if sharp_all && distinct && count > 0 {
+        obs.nontrivial();
+    }
+}
+
+fn check_pad(case: &Case, obs: &mut Obs) {
+    let spec = &case.spec;
+    let n = spec.n();
+    let present: Vec<usize> = (0..n).filter(|i| !case.absent.contains(i)).collect();
+    if present.is_empty() || case.state.x.len() != present.len() {
+        obs.discard("inconsistent case");
+        return;
+    }
+    obs.class(format!("pad: {} of {} components absent", case.absent.len(), n));
+    // right: model built directly from the present components
+    let rs = spec.subset(&present);
+    let right = try_discard!(obs, "build subset", rs.build());
+    let inp_r = try_discard!(obs, "inputs", state_inputs(&rs, &right, &case.state));
+    let left = try_discard!(obs, "build", spec.build());
+    let nr = inp_r.2.to_reduced();
+    let mut nl = vec![0.0; n];
+    for (k, &i) in present.iter().enumerate() {
+        nl[i] = nr[k];
+    }
+    let inp_l: Inputs = (inp_r.0, inp_r.1, Moles::from_reduced(Array1::from_vec(nl)));
+    if let Ok(p) = props(&right, &inp_r, &[]) {
+        feature_classes(obs, "pad", &rs, &p);
+    }
+    let Some(sharp) = pair_compare(
+        obs,
+        "pad",
+        Side { spec, model: &left, inp: &inp_l },
+        Side { spec: &rs, model: &right, inp: &inp_r },
+        &present,
+        case.state.f_eta,
+    ) else {
+        return;
+    };
+    if sharp >= 5 {
+        obs.nontrivial();
+    }
+}
+
+fn check_split(case: &Case, obs: &mut Obs) {
+    let spec = &case.spec;
+    let n = spec.n();
+    let comp = case.comp.min(n - 1);
+    // ions of ePC-SAFT: like-charged ions have their mutual dispersion switched off by the model
+    // definition, which (A+, A+') does not reproduce: split only neutral components
+    if spec.family == Family::EPcSaft && mr_f64(&spec.pure[comp], "z") != 0.0 {
+        obs.discard("split of an ion (outside the domain: model definition)");
+        return;
+    }
+    let left = try_discard!(obs, "build", spec.build());
+    let inp = try_discard!(obs, "inputs", state_inputs(spec, &left, &case.state));
+    let rs = split_spec(spec, comp);
+    let right = try_discard!(obs, "build split", rs.build());
+    let nl = inp.2.to_reduced();
+    let mut nr: Vec<f64> = nl.to_vec();
+    nr.push(nl[comp] * (1.0 - case.split));
+    nr[comp] = nl[comp] * case.split;
+    let inp_r: Inputs = (inp.0, inp.1, Moles::from_reduced(Array1::from_vec(nr)));
+    let mut map: Vec<usize> = (0..n).collect();
+    map.push(comp);
+    if let Ok(p) = props(&left, &inp, &[]) {
+        feature_classes(obs, "split", spec, &p);
+    }
+    let Some(sharp) = pair_compare(
+        obs,
+        "split",
+        Side { spec, model: &left, inp: &inp },
+        Side { spec: &rs, model: &right, inp: &inp_r },
+        &map,
+        case.state.f_eta,
+    ) else {
+        return;
+    };
+    if sharp >= 5 {
+        obs.nontrivial();
+    }
+}
+
+struct SubsetVisitor<'a> {
+    spec: &'a ModelSpec,
+    subsets: &'a [Vec<usize>],
+    state: &'a StateSpec,
+}
+/// per subset: (max_density of the typed sub-model at the state's moles, its props)
+impl Visitor for SubsetVisitor<'_> {
+    type Out = Vec<Result<(f64, Props), String>>;
+    fn visit<E: Residual + 'static>(self, eos: Arc<E>) -> Self::Out {
+        self.subsets
+            .iter()
+            .map(|idx| {
+                let ds = self.spec.subset(idx);
+                let direct = ds.build()?;
+                let mut st = self.state.clone();
+                st.x = renorm(&idx.iter().map(|&i| self.state.x[i]).collect::<Vec<_>>());
+                let inp = state_inputs(&ds, &direct, &st)?;
+                let sub = Arc::new(eos.subset(idx));
+                let md = sub.max_density(Some(&inp.2)).map_err(|e| e.to_string())?.to_reduced();
+                Ok((md, props(&sub, &inp, &[])?))
+            })
+            .collect()
+    }
+}
+
+fn renorm(x: &[f64]) -> Vec<f64> {
+    let s: f64 = x.iter().sum();
+    x.iter().map(|v| v / s).collect()
+}
+
+fn check_subset(case: &Case, obs: &mut Obs) {
+    let spec = &case.spec;
+    let n = spec.n();
+    let all = ordered_subsets(n);
+    // n <= 3: every subset in every order (15); n = 4: 10 of the 64, chosen by the genome
+    let subsets: Vec<Vec<usize>> = if n <= 3 {
+        all
+    } else {
+        let mut v: Vec<Vec<usize>> = vec![];
+        for &p in &case.picks {
+            let s = all[p % all.len()].clone();
+            if !v.contains(&s) {
+                v.push(s);
+            }
+        }
+        v
+    };
+    let full = try_discard!(obs, "build", spec.build());
+    let typed = try_discard!(obs, "typed build", with_typed(spec, SubsetVisitor { spec, subsets: &subsets, state: &case.state }));
+    let mut nontrivial = false;
+    let mut visited = 0;
+    for (idx, t) in subsets.iter().zip(typed) {
+        let ds = spec.subset(idx);
+        let direct = try_discard!(obs, "build direct", ds.build());
+        let mut st = case.state.clone();
+        st.x = renorm(&idx.iter().map(|&i| case.state.x[i]).collect::<Vec<_>>());
+        let inp = try_discard!(obs, "inputs", state_inputs(&ds, &direct, &st));
+        let d = try_discard!(obs, "direct state", props(&direct, &inp, &[]));
+        if !d.a.0.is_finite() {
+            obs.discard(format!("non-finite A_res:{:?}", spec.family));
+            continue;
+        }
+        let md_direct = try_discard!(obs, "max_density", direct.max_density(Some(&inp.2)).map_err(|e| e.to_string())).to_reduced();
+        let sub_e = Arc::new(full.subset(idx));
+        let e = try_discard!(obs, "enum subset state", props(&sub_e, &inp, &[]));
+        let md_e = try_discard!(obs, "max_density", sub_e.max_density(Some(&inp.2)).map_err(|e| e.to_string())).to_reduced();
+        let (md_t, t) = try_discard!(obs, "typed subset state", t);
+        let map: Vec<usize> = (0..idx.len()).collect();
+        let (tol, extra, floor) = pair_tol(&ds, &d, st.f_eta);
+        let mut o2 = Obs::default();
+        let mut s1 = compare(&mut o2, "subset/enum(probe)", &e, &d, &map, tol, extra, floor);
+        let mut s2 = compare(&mut o2, "subset/typed(probe)", &t, &d, &map, tol, extra, floor);
+        obs.comparisons += o2.comparisons;
+        if o2.fails.is_empty() {
+            // calibration record of the passing comparisons
+            let fam = format!("{:?}", spec.family);
+            compare(&mut Obs::default(), &format!("subset/enum/{fam}"), &e, &d, &map, tol, extra, floor);
+            compare(&mut Obs::default(), &format!("subset/typed/{fam}"), &t, &d, &map, tol, extra, floor);
+        }
+        // ePC-SAFT switches the dispersion between like ions off only when a binary-record matrix
+        // is passed (even an all-default one, as `Parameter::subset` does): a sub-model with ions
+        // differs from the model built from the same records without binary records
+        let like_ion_rule = spec.family == Family::EPcSaft
+            && ds.binary.is_empty()
+            && !spec.binary.is_empty()
+            && idx.iter().any(|&i| mr_f64(&spec.pure[i], "z") != 0.0);
+        if like_ion_rule && !o2.fails.is_empty() {
+            obs.class("signature:C09/epcsaft-like-ion-rule-needs-binary-matrix");
+            obs.known_or_fail("C09/epcsaft-like-ion-rule-needs-binary-matrix", format!("subset {idx:?}: {}", o2.fails[0]));
+            let (Ok(ex), Ok(tx), Ok(dx)) =
+                (props(&sub_e, &inp, &["Dispersion"]), props(&Arc::new(full.subset(idx)), &inp, &["Dispersion"]), props(&direct, &inp, &["Dispersion"]))
+            else {
+                continue;
+            };
+            s1 = compare(obs, "subset/enum(masked)", &ex, &dx, &map, tol, extra, floor);
+            s2 = compare(obs, "subset/typed(masked)", &tx, &dx, &map, tol, extra, floor);
+        } else {
+            for f in o2.fails.iter().take(2) {
+                obs.fail(format!("subset {idx:?}: {f}"));
+            }
+        }
+        // compute_max_density sees the options of the sub-model
+        for (what, md) in [("ResidualModel::subset", md_e), ("typed subset", md_t)] {
+            obs.count();
+            if (md - md_direct).abs() > 1e-12 * md_direct.abs() {
+                let msg = format!(
+                    "max_density of {what}({idx:?}) = {md:e} vs directly built model with the same options = {md_direct:e} (max_eta = {})",
+                    spec.opts.max_eta
+                );
+                if spec.family == Family::SaftVRMie && spec.opts.max_eta != 0.5 {
+                    obs.class("signature:C09/saftvrmie-subset-drops-options");
+                    obs.known_or_fail("C09/saftvrmie-subset-drops-options", msg);
+                } else {
+                    obs.fail(msg);
+                }
+            }
+        }
+        visited += 1;
+        let sorted = idx.windows(2).all(|w| w[0] < w[1]);
+        if idx.len() < n && !sorted && s1 >= 5 && s2 >= 5 {
+            nontrivial = true;
+        }
+        if !sorted {
+            obs.class("subset in non-sorted order");
+        }
+        obs.class(format!("subset size {}", idx.len()));
+    }
+    obs.class(format!("subsets per case: {visited}"));
+    let d = Opts::default();
+    let non_default = spec.opts.max_eta != d.max_eta;
+    if nontrivial && non_default {
+        obs.nontrivial();
+    }
+}
+
+// ---------------------------------------------------------------------------------------
+// (v) pure-component quantities derived inside mixture algorithms
+// ---------------------------------------------------------------------------------------
+/// (rtol, family label or None when the case matches a known-finding signature: not calibrated)
+#[derive(Clone)]
+struct SolverTol(f64, Option<String>);
+
+fn solver_close(obs: &mut Obs, st: &SolverTol, what: &str, u: f64, v: f64) {
+    let d = (u - v).abs() / u.abs().max(v.abs()).max(1e-300);
+    if let Some(f) = &st.1 {
+        let q = what.split('[').next().unwrap();
+        let q = q.split(' ').next().unwrap();
+        super::c08::track(&format!("pure/{f}/{q}"), d / st.0, d);
+    }
+    obs.close(what, u, v, st.0, 0.0);
+}
+
+fn check_pure(case: &Case, obs: &mut Obs) {
+    let mut inner = Obs::default();
+    // SaftVRMie::subset rebuilds the sub-model with default options: with non-default options the
+    // pure-component solvers of the mixture algorithms start from a different max_density
+    let d = Opts::default();
+    let o = &case.spec.opts;
+    let f2 = case.spec.family == Family::SaftVRMie
+        && (o.max_eta != d.max_eta || o.tol_cross_assoc != d.tol_cross_assoc || o.max_iter_cross_assoc != d.max_iter_cross_assoc);
+    check_pure2(case, &mut inner, f2);
+    let fails = std::mem::take(&mut inner.fails);
+    obs.classes.extend(inner.classes);
+    obs.discards.extend(inner.discards);
+    obs.comparisons += inner.comparisons;
+    obs.nontrivial |= inner.nontrivial;
+    if f2 && !fails.is_empty() {
+        obs.class("signature:C09/saftvrmie-subset-drops-options");
+        obs.known_or_fail("C09/saftvrmie-subset-drops-options", fails[0].clone());
+    } else {
+        for f in fails {
+            obs.fail(f);
+        }
+    }
+}
+fn check_pure2(case: &Case, obs: &mut Obs, f2: bool) {
+    let spec = &case.spec;
+    let st = SolverTol(
+        if is_gc(spec.family) { RTOL_SOLVER_GC } else { RTOL_SOLVER },
+        if f2 { None } else { Some(format!("{:?}", spec.family)) },
+    );
+    let n = spec.n();
+    let eos = try_discard!(obs, "build", spec.build());
+    let pures: Vec<Arc<Model>> = {
+        let mut v = vec![];
+        for i in 0..n {
+            v.push(try_discard!(obs, "build pure", spec.subset(&[i]).build()));
+        }
+        v
+    };
+    let tcs: Vec<f64> = (0..n).map(|i| pure_tc(spec, &eos, i)).collect();
+    // T = tau x (lowest pure T_c) but not below half the highest pure T_c: pure-component VLE far
+    // below 0.5 T_c (p_sat ~ 1e-15 in reduced units) is converged to ~1e-5 relative only and two
+    // builds of one gc-PC-SAFT model (HashMap order, 1e-16) then differ by that much
+    let (tc_min, tc_max) = (tcs.iter().cloned().fold(f64::INFINITY, f64::min), tcs.iter().cloned().fold(0.0, f64::max));
+    let t = (case.tau_vle * tc_min).max(0.5 * tc_max) * KELVIN;
+    obs.class(if case.tau_vle * tc_min >= 0.5 * tc_max { "T = tau x min T_c" } else { "T = 0.5 max T_c (light component near- or supercritical)" });
+    let mut done = 0;
+
+    // vapor_pressure / vle_pure_comps
+    let pv = PhaseEquilibrium::vapor_pressure(&eos, t);
+    let vles = PhaseEquilibrium::vle_pure_comps(&eos, t);
+    let mut p_sat: Vec<Option<f64>> = vec![];
+    for i in 0..n {
+        let direct = PhaseEquilibrium::pure(&pures[i], t, None, SolverOptions::default());
+        match (&pv[i], &direct) {
+            (Some(p), Ok(d)) => {
+                let pd = d.vapor().pressure(Contributions::Total).to_reduced();
+                solver_close(obs, &st, &format!("vapor_pressure[{i}]"), p.to_reduced(), pd);
+                p_sat.push(Some(pd));
+                done += 1;
+            }
+            (None, Err(_)) => {
+                obs.class("pure VLE not found on both sides");
+                p_sat.push(None);
+            }
+            (a, b) => {
+                obs.fail(format!(
+                    "vapor_pressure[{i}] at {t}: sub-model {} but the directly built pure model {}",
+                    if a.is_some() { "converged" } else { "failed" },
+                    if b.is_ok() { "converged" } else { "failed" }
+                ));
+                p_sat.push(None);
+            }
+        }
+        if let (Some(v), Ok(_)) = (&vles[i], &direct) {
+            if spec.has_association() && v.vapor().density.to_reduced() < 1e-12 {
+                // the iterative association solver returns 0 below a total site density of f64::EPSILON
+                // (candidate F4 of C13): the padded vapour state in the full model loses its association
+                obs.class("vle_pure_comps: vapour density below the zero-density guard of the association solver (skipped)");
+                continue;
+            }
+        }
+        if let (Some(v), Ok(d)) = (&vles[i], &direct) {
+            solver_close(obs, &st, &format!("vle_pure_comps[{i}] vapor density"), v.vapor().density.to_reduced(), d.vapor().density.to_reduced());
+            solver_close(obs, &st, &format!("vle_pure_comps[{i}] liquid density"), v.liquid().density.to_reduced(), d.liquid().density.to_reduced());
+            solver_close(
+                obs,
+                &st,
+                &format!("vle_pure_comps[{i}] pressure"),
+                v.vapor().pressure(Contributions::Total).to_reduced(),
+                d.vapor().pressure(Contributions::Total).to_reduced(),
+            );
+            // the states live in the full model with zero moles of the other components
+            obs.ensure(v.vapor().moles.len() == n && v.vapor().molefracs[i] == 1.0, || {
+                format!("vle_pure_comps[{i}]: vapor state is not the pure component in the full model")
+            });
+        } else if vles[i].is_some() != direct.is_ok() {
+            obs.fail(format!("vle_pure_comps[{i}] at {t}: convergence differs from the directly built pure model"));
+        }
+    }
+
+    // critical_point_pure
+    match State::critical_point_pure(&eos, None, SolverOptions::default()) {
+        Ok(cps) => {
+            for (i, cp) in cps.iter().enumerate() {
+                match State::critical_point(&pures[i], None, None, SolverOptions::default()) {
+                    Ok(d) => {
+                        solver_close(obs, &st, &format!("critical_point_pure[{i}] T"), cp.temperature.to_reduced(), d.temperature.to_reduced());
+                        solver_close(obs, &st, &format!("critical_point_pure[{i}] density"), cp.density.to_reduced(), d.density.to_reduced());
+                        done += 1;
+                    }
+                    Err(_) => obs.fail(format!("critical_point_pure[{i}] converged but the directly built pure model failed")),
+                }
+            }
+        }
+        Err(_) => {
+            let any_fail = (0..n).any(|i| State::critical_point(&pures[i], None, None, SolverOptions::default()).is_err());
+            obs.ensure(any_fail, || "critical_point_pure failed although every directly built pure model converges".to_string());
+            obs.class("critical_point_pure: Err on both routes");
+        }
+    }
+
+    // ln_phi_pure_liquid / ln_symmetric_activity_coefficient at (T, p, x), p above every pure vapour pressure
+    let pmax = p_sat.iter().flatten().cloned().fold(0.0, f64::max);
+    if pmax > 0.0 {
+        let p = Pressure::from_reduced(pmax * case.p_factor);
+        let moles = Moles::from_reduced(Array1::from_vec(case.state.x.clone()));
+        if let Ok(s) = State::new_npt(&eos, t, p, &moles, DensityInitialization::Liquid) {
+            let p_state = s.pressure(Contributions::Total);
+            let direct: Vec<Result<f64, String>> = (0..n)
+                .map(|i| {
+                    State::new_npt(&pures[i], t, p_state, &Moles::from_reduced(Array1::from_vec(vec![1.0])), DensityInitialization::Liquid)
+                        .map(|st| st.ln_phi()[0])
+                        .map_err(|e| e.to_string())
+                })
+                .collect();
+            match s.ln_phi_pure_liquid() {
+                Ok(lp) => {
+                    for i in 0..n {
+                        match &direct[i] {
+                            Ok(d) if !d.is_finite() && !lp[i].is_finite() => obs.class("ln_phi_pure_liquid: non-finite on both routes"),
+                            Ok(d) => {
+                                let sc = lp[i].abs().max(d.abs()).max(1.0);
+                                obs.close_scaled(&format!("ln_phi_pure_liquid[{i}]"), lp[i], *d, st.0, sc);
+                                done += 1;
+                            }
+                            Err(e) => obs.fail(format!("ln_phi_pure_liquid[{i}] returned a value but the direct pure state failed: {e}")),
+                        }
+                    }
+                    if let Ok(g) = s.ln_symmetric_activity_coefficient() {
+                        let lphi = s.ln_phi();
+                        for i in 0..n {
+                            if let Ok(d) = &direct[i] {
+                                if !g[i].is_finite() && !(lphi[i] - d).is_finite() {
+                                    obs.class("ln_symmetric_activity_coefficient: non-finite on both routes");
+                                    continue;
+                                }
+                                let sc = lphi[i].abs().max(d.abs()).max(1.0);
+                                obs.close_scaled(&format!("ln_symmetric_activity_coefficient[{i}]"), g[i], lphi[i] - d, st.0, sc);
+                            }
+                        }
+                    }
+                }
+                Err(_) => {
+                    obs.ensure(direct.iter().any(|d| d.is_err()), || {
+                        "ln_phi_pure_liquid failed although every direct pure liquid state exists".to_string()
+                    });
+                }
+            }
+        } else {
+            obs.class("no liquid mixture state at (T, p)");
+        }
+    }
+
+    // henrys_law_constant: component `comp` is the solute (x = 0), the others are the solvent
+    let solute = case.comp.min(n - 1);
+    let solvent: Vec<usize> = (0..n).filter(|&i| i != solute).collect();
+    let xs = renorm(&solvent.iter().map(|&i| case.state.x[i]).collect::<Vec<_>>());
+    let mut xfull = vec![0.0; n];
+    for (k, &i) in solvent.iter().enumerate() {
+        xfull[i] = xs[k];
+    }
+    let xfull = Array1::from_vec(xfull);
+    let lib = State::henrys_law_constant(&eos, t, &xfull);
+    let recipe = (|| -> Result<f64, String> {
+        let smodel = spec.subset(&solvent).build()?;
+        let xs = Array1::from_vec(xs.clone());
+        let vle = if solvent.len() == 1 {
+            PhaseEquilibrium::pure(&smodel, t, None, SolverOptions::default())
+        } else {
+            PhaseEquilibrium::bubble_point(&smodel, t, &xs, None, None, Default::default())
+        }
+        .map_err(|e| e.to_string())?;
+        let liquid = State::new_nvt(&eos, t, vle.liquid().volume, &(xfull.clone() * vle.liquid().total_moles)).map_err(|e| e.to_string())?;
+        let mut xv = xfull.clone();
+        for (k, &i) in solvent.iter().enumerate() {
+            xv[i] = vle.vapor().molefracs[k];
+        }
+        let vapor = State::new_nvt(&eos, t, vle.vapor().volume, &(xv * vle.vapor().total_moles)).map_err(|e| e.to_string())?;
+        let p = vle.vapor().pressure(Contributions::Total).to_reduced();
+        Ok((liquid.ln_phi()[solute] - vapor.ln_phi()[solute]).exp() * p)
+    })();
+    match (lib, recipe) {
+        (Ok(h), Ok(r)) if !h.to_reduced()[0].is_finite() && !r.is_finite() => obs.class("henry: non-finite on both routes"),
+        (Ok(h), Ok(r)) => {
+            solver_close(obs, &st, "henrys_law_constant", h.to_reduced()[0], r);
+            obs.class(format!("henry: {} solvent component(s)", solvent.len()));
+            done += 1;
+        }
+        (Err(_), Err(_)) => obs.class("henry: Err on both routes"),
+        (a, b) => obs.fail(format!(
+            "henrys_law_constant: library {} but the same recipe on directly built solvent model {}",
+            if a.is_ok() { "converged" } else { "failed" },
+            if b.is_ok() { "converged" } else { "failed" }
+        )),
+    }
+    if done >= 2 * n && spec.opts != Opts::default() {
+        obs.nontrivial();
+    }
+}
+
+// ---------------------------------------------------------------------------------------
+// Parts
+// ---------------------------------------------------------------------------------------
+const fn part(name: &'static str, quick: u32, thorough: u32) -> PartCfg {
+    PartCfg { name, genome_len: 128, cases_quick: quick, cases_thorough: thorough, panic: PanicPolicy::Count }
+}
+const PARTS: [(Clause, PartCfg); 5] = [
+    (Clause::Permute, part("permute", 600, 160_000)),
+    (Clause::Pad, part("pad", 1200, 240_000)),
+    (Clause::Split, part("split", 1500, 240_000)),
+    (Clause::Subset, part("subset", 300, 80_000)),
+    (Clause::PureQuantities, part("pure-quantities", 200, 40_000)),
+];
+
+pub fn run(ctx: &Ctx) {
+    ctx.set_rule("five sampled parts, one per clause; model spec from the zoo (13 families, shipped / perturbed / random records, binary records incl. k_ij, association overrides, l_ij) with non-default options forced in 75 % of the cases (max_eta 0.35-0.65, cross-association solver limits, DQ variant, FMT version, perturbation, inc_nonadd_term, ePC-SAFT variant); states of DESIGN 3.2. permute: n = 2-4, EVERY permutation != id of each case (records + binary matrix + moles permuted together); pad: one or two components with N_k = 0 vs the model built directly from the present components; split: component A -> (A, A) at (sN, (1-s)N), s in (0.02, 0.98); subset: every non-empty ordered subset for n <= 3 (15), 10 of the 64 for n = 4, `Components::subset` on the typed model and on ResidualModel vs the model built from records[idx] with the same options, incl. max_density; pure-quantities: vapor_pressure, vle_pure_comps, critical_point_pure, ln_phi_pure_liquid, ln_symmetric_activity_coefficient, henrys_law_constant vs directly built pure / solvent models. Non-trivial: >= 5 compared quantities exceed 1e3 x their allowed deviation and (permute) records not all identical, (subset) a proper subset in non-sorted order with max_eta != default, (pure-quantities) >= 2n solver results compared with non-default options. Distinct by hash of the canonical case JSON.");
+    ctx.assume("allowed deviation = rel * min(S_l,S_r) + round * max(S_l,S_r) with S = sum over contributions of |d^k A_c|: rel = round = 2e-12 (1e-11 group-contribution models: HashMap build order, ePC-SAFT and SAFT-VR Mie; 3e-9 Peng-Robinson: single contribution with internal cancellation); where an association term is present rel 2e-8 (+1e-14 x rho Delta), atol 100 x tol_cross_assoc x sites on beta A/N and 2e-14 x sites of the ideal-like scale (iterative solver started from a different site order)");
+    ctx.assume("solver results of clause (v) agree to 1e-8 relative: both routes run the same algorithm on nominally the same model");
+    ctx.assume("outside the domain by model definition: splitting an ion of ePC-SAFT (like-charged ions have no mutual dispersion), splitting with the gc-PC-SAFT group-group k_ij table (k_ij act between different components only)");
+    for (clause, cfg) in PARTS.iter() {
+        ctx.run_sampled(cfg, &decode_clause(*clause), &check);
+    }
+    let w = super::c08::WORST.lock().unwrap();
+    let cal: BTreeMap<String, Value> = w
+        .iter()
+        .map(|(k, (ratio, rel))| (k.clone(), json!({"worst_diff_over_allowed": ratio, "worst_diff_over_min_scale": rel})))
+        .collect();
+    ctx.extra("calibration", json!(cal));
+}
+
+pub fn replay(ctx: &Ctx, _part: &str, case: &Value) -> bool {
+    ctx.replay_case::<Case>(case, &check)
+}
+
+#[allow(dead_code)]
+fn _unused() {
+    let _ = (strip_polar, ATOL_A);
 }
